@@ -249,9 +249,18 @@ Proof.
   rewrite E1, E2, str_eqb_refl. apply IH; assumption.
 Qed.
 
+Lemma clean_path comps : good_comps comps -> clean (path_of_names comps) = path_of_names comps.
+Proof.
+  intros Hg. rewrite clean_rooted; [rewrite comps_of_path by assumption; reflexivity | reflexivity |].
+  rewrite comps_of_path; assumption.
+Qed.
+
 Lemma fs_path c0 lv file comps :
   good_comps comps -> fs_of_chain c0 lv file (path_of_names comps) = walk c0 lv file comps.
-Proof. intros Hg. unfold fs_of_chain. cbn [path_of_names is_rooted]. rewrite N.eqb_refl, comps_of_path by assumption. reflexivity. Qed.
+Proof.
+  intros Hg. unfold fs_of_chain. rewrite clean_path by assumption.
+  cbn [path_of_names is_rooted]. rewrite N.eqb_refl, comps_of_path by assumption. reflexivity.
+Qed.
 
 Lemma probe_regal c0 above below file :
   Forall plain_name (names above) ->
@@ -416,15 +425,16 @@ Lemma plain_nonempty ns : Forall plain_name ns -> Forall (fun n => n <> []) ns.
 Proof. intros H. eapply Forall_impl; [|exact H]. intros n (H1 & _); exact H1. Qed.
 
 (* findUpwards on a chain = the deepest directory holding the wanted entry *)
-Lemma find_upwards_spec c0 lv file name expect_dir P :
+Lemma find_upwards_spec c0 lv file cwd arg name expect_dir P :
   Forall plain_name (names lv) -> file_ok file -> good_comp name ->
+  abs_path cwd arg = start_path lv file ->
   (forall above below, lv = above ++ below ->
      node_is expect_dir (fs_of_chain c0 lv file (path_of_names (names above ++ [name]))) =
      P (deepest c0 above)) ->
-  find_upwards (fs_of_chain c0 lv file) (start_path lv file) name expect_dir =
+  find_upwards (fs_of_chain c0 lv file) cwd arg name expect_dir =
   up_spec c0 name P lv.
 Proof.
-  intros Hp Hf Hn Hprobe. unfold find_upwards, start_path.
+  intros Hp Hf Hn Habs Hprobe. unfold find_upwards, find_upwards_gen. rewrite Habs. unfold start_path.
   destruct file as [f|].
   - rewrite probe_start_file by assumption.
     rewrite dir_path_snoc; [| apply plains_good; assumption | apply plain_good; exact Hf].
@@ -441,21 +451,21 @@ Proof.
       unfold names in *. rewrite map_length in L. lia.
 Qed.
 
-Lemma find_dir_spec c0 lv file :
-  Forall plain_name (names lv) -> file_ok file ->
-  find_regal_directory (fs_of_chain c0 lv file) (start_path lv file) = up_spec c0 REGAL holds_dir lv.
+Lemma find_dir_spec c0 lv file cwd arg :
+  Forall plain_name (names lv) -> file_ok file -> abs_path cwd arg = start_path lv file ->
+  find_regal_directory (fs_of_chain c0 lv file) cwd arg = up_spec c0 REGAL holds_dir lv.
 Proof.
-  intros Hp Hf. apply find_upwards_spec; try assumption; [apply REGAL_good|].
+  intros Hp Hf Habs. apply find_upwards_spec; try assumption; [apply REGAL_good|].
   intros above below Hlv. subst lv. rewrite probe_regal.
   - unfold holds_dir. destruct (c_regal (deepest c0 above)); reflexivity.
   - unfold names in *. rewrite map_app in Hp. apply Forall_app in Hp. tauto.
 Qed.
 
-Lemma find_yaml_spec c0 lv file :
-  Forall plain_name (names lv) -> file_ok file ->
-  find_regal_config_file (fs_of_chain c0 lv file) (start_path lv file) = up_spec c0 REGAL_YAML holds_yaml lv.
+Lemma find_yaml_spec c0 lv file cwd arg :
+  Forall plain_name (names lv) -> file_ok file -> abs_path cwd arg = start_path lv file ->
+  find_regal_config_file (fs_of_chain c0 lv file) cwd arg = up_spec c0 REGAL_YAML holds_yaml lv.
 Proof.
-  intros Hp Hf. apply find_upwards_spec; try assumption; [apply REGAL_YAML_good|].
+  intros Hp Hf Habs. apply find_upwards_spec; try assumption; [apply REGAL_YAML_good|].
   intros above below Hlv. subst lv. rewrite probe_yaml.
   - unfold holds_yaml. destruct (c_yaml (deepest c0 above)); reflexivity.
   - unfold names in *. rewrite map_app in Hp. apply Forall_app in Hp. tauto.
@@ -566,11 +576,16 @@ Qed.
 Lemma str_eqb_len_ne a b : length a <> length b -> str_eqb a b = false.
 Proof. intros H. destruct (str_eqb_spec a b) as [->|]; [contradiction | reflexivity]. Qed.
 
-Lemma find_config_spec c0 lv file :
-  Forall plain_name (names lv) -> file_ok file ->
-  find_config (fs_of_chain c0 lv file) (start_path lv file) = find_spec c0 lv.
+Lemma find_config_spec c0 lv file cwd arg :
+  Forall plain_name (names lv) -> file_ok file -> abs_path cwd arg = start_path lv file ->
+  find_config (fs_of_chain c0 lv file) cwd arg = find_spec c0 lv.
 Proof.
-  intros Hp Hf. unfold find_config. rewrite find_dir_spec, find_yaml_spec by assumption.
+  intros Hp Hf Habs. unfold find_config, find_config_gen.
+  fold (find_upwards (fs_of_chain c0 lv file) cwd arg REGAL true).
+  fold (find_upwards (fs_of_chain c0 lv file) cwd arg REGAL_YAML false).
+  fold (find_regal_directory (fs_of_chain c0 lv file) cwd arg).
+  fold (find_regal_config_file (fs_of_chain c0 lv file) cwd arg).
+  rewrite (find_dir_spec c0 lv file cwd arg Hp Hf Habs), (find_yaml_spec c0 lv file cwd arg Hp Hf Habs).
   unfold up_spec, find_spec.
   destruct (nearest holds_dir [] c0 lv) as [[p c]|] eqn:Ed;
     destruct (nearest holds_yaml [] c0 lv) as [[q c']|] eqn:Ey; cbn [found andb negb].
@@ -655,17 +670,17 @@ Proof.
   rewrite Hn, app_length in H0. lia.
 Qed.
 
-Theorem find_nearest (c0 : contents) (lv : levels) (file : option str) :
+Theorem find_nearest (c0 : contents) (lv : levels) (file : option str) (cwd arg : str) :
   Forall plain_name (map fst lv) -> file_ok file ->
+  abs_path cwd arg = start_path lv file ->
   let fs := fs_of_chain c0 lv file in
-  let start := start_path lv file in
   (forall above n c below, lv = above ++ (n, c) :: below ->
      holds c = true -> none_hold below ->
-     find_config fs start = outcome_at (map fst above ++ [n]) c) /\
-  (holds c0 = true -> none_hold lv -> find_config fs start = outcome_at [] c0) /\
-  (holds c0 = false -> none_hold lv -> find_config fs start = FErr ENotFound).
+     find_config fs cwd arg = outcome_at (map fst above ++ [n]) c) /\
+  (holds c0 = true -> none_hold lv -> find_config fs cwd arg = outcome_at [] c0) /\
+  (holds c0 = false -> none_hold lv -> find_config fs cwd arg = FErr ENotFound).
 Proof.
-  intros Hp Hf fs start. unfold fs, start. rewrite (find_config_spec c0 lv file Hp Hf).
+  intros Hp Hf Habs fs. unfold fs. rewrite (find_config_spec c0 lv file cwd arg Hp Hf Habs).
   repeat split.
   - intros above n c below -> Hc Hb. destruct (none_hold_kind _ Hb) as (Hbd & Hby).
     unfold find_spec, holds in *.
@@ -698,12 +713,12 @@ Proof.
 Qed.
 
 (* error "conflict" exactly when the closest holders of the two kinds coincide *)
-Theorem conflict_iff (c0 : contents) (lv : levels) (file : option str) :
-  Forall plain_name (map fst lv) -> file_ok file ->
-  (find_config (fs_of_chain c0 lv file) (start_path lv file) = FErr EConflict <->
+Theorem conflict_iff (c0 : contents) (lv : levels) (file : option str) (cwd arg : str) :
+  Forall plain_name (map fst lv) -> file_ok file -> abs_path cwd arg = start_path lv file ->
+  (find_config (fs_of_chain c0 lv file) cwd arg = FErr EConflict <->
    exists p c, nearest holds_dir [] c0 lv = Some (p, c) /\ nearest holds_yaml [] c0 lv = Some (p, c)).
 Proof.
-  intros Hp Hf. rewrite (find_config_spec c0 lv file Hp Hf). unfold find_spec.
+  intros Hp Hf Habs. rewrite (find_config_spec c0 lv file cwd arg Hp Hf Habs). unfold find_spec.
   destruct (nearest holds_dir [] c0 lv) as [[p c]|] eqn:Ed;
     destruct (nearest holds_yaml [] c0 lv) as [[q c']|] eqn:Ey.
   - destruct (nearest_deepest _ _ _ _ _ _ Ed) as (ab1 & bl1 & Hl1 & Hp1 & Hc1).
@@ -754,8 +769,8 @@ Proof. destruct found as [p|[]], global_dir, global_cfg; reflexivity. Qed.
    continued with the user-level file or with the defaults (repaired by commit c2a44f9) *)
 Theorem cli_conflict_pinned_refuted :
   exists c0 lv file global_dir global_cfg,
-    find_config (fs_of_chain c0 lv file) (start_path lv file) = FErr EConflict /\
-    cli_config_pinned None (find_config (fs_of_chain c0 lv file) (start_path lv file)) global_dir global_cfg
+    find_config (fs_of_chain c0 lv file) [SLASH] (start_path lv file) = FErr EConflict /\
+    cli_config_pinned None (find_config (fs_of_chain c0 lv file) [SLASH] (start_path lv file)) global_dir global_cfg
       = UseDefaults.
 Proof. exists both_kinds, [], None, false, false. split; vm_compute; reflexivity. Qed.
 
@@ -766,7 +781,7 @@ Theorem find_nearest_file_refuted :
   exists c0 lv,
     Forall plain_name (map fst lv) /\
     holds_file c0 = true /\ Forall (fun l => holds_file (snd l) = false) lv /\
-    find_config (fs_of_chain c0 lv None) (start_path lv None) <> outcome_at [] c0.
+    find_config (fs_of_chain c0 lv None) [SLASH] (start_path lv None) <> outcome_at [] c0.
 Proof.
   exists {| c_regal := RAbsent; c_yaml := YIsFile |},
          [([97%N], {| c_regal := RDir false; c_yaml := YAbsent |})].
@@ -783,21 +798,20 @@ Proof.
   intros H; exfalso; apply H; reflexivity.
 Qed.
 
-Theorem find_nearest_file_partial (c0 : contents) (lv : levels) (file : option str) :
-  Forall plain_name (map fst lv) -> file_ok file ->
+Theorem find_nearest_file_partial (c0 : contents) (lv : levels) (file : option str) (cwd arg : str) :
+  Forall plain_name (map fst lv) -> file_ok file -> abs_path cwd arg = start_path lv file ->
   no_empty_regal_dir c0 -> Forall (fun l => no_empty_regal_dir (snd l)) lv ->
   let fs := fs_of_chain c0 lv file in
-  let start := start_path lv file in
   (forall above n c below, lv = above ++ (n, c) :: below ->
      holds_file c = true -> Forall (fun l => holds_file (snd l) = false) below ->
-     find_config fs start = outcome_at (map fst above ++ [n]) c) /\
+     find_config fs cwd arg = outcome_at (map fst above ++ [n]) c) /\
   (holds_file c0 = true -> Forall (fun l => holds_file (snd l) = false) lv ->
-     find_config fs start = outcome_at [] c0) /\
+     find_config fs cwd arg = outcome_at [] c0) /\
   (holds_file c0 = false -> Forall (fun l => holds_file (snd l) = false) lv ->
-     find_config fs start = FErr ENotFound).
+     find_config fs cwd arg = FErr ENotFound).
 Proof.
-  intros Hp Hf H0 Hl fs start.
-  destruct (find_nearest c0 lv file Hp Hf) as (A & B & C).
+  intros Hp Hf Habs H0 Hl fs.
+  destruct (find_nearest c0 lv file cwd arg Hp Hf Habs) as (A & B & C).
   assert (conv : forall l, Forall (fun l => no_empty_regal_dir (snd l)) l ->
                  Forall (fun l => holds_file (snd l) = false) l -> none_hold l).
   { intros l H1 H2. unfold none_hold. rewrite Forall_forall in *. intros x Hx.
@@ -811,3 +825,29 @@ Proof.
   - intros Hc Hb. apply B; [rewrite <- holds_file_eq; assumption | apply conv; assumption].
   - intros Hc Hb. apply C; [rewrite <- holds_file_eq; assumption | apply conv; assumption].
 Qed.
+
+(* the start path spelled as itself is one way to meet [abs_path cwd arg = start_path lv file] *)
+Lemma abs_path_start lv file cwd :
+  Forall plain_name (map fst lv) -> file_ok file ->
+  abs_path cwd (start_path lv file) = start_path lv file.
+Proof.
+  intros Hp Hf. unfold abs_path, start_path. cbn [path_of_names is_rooted]. rewrite N.eqb_refl.
+  apply (clean_path (names lv ++ match file with Some f => [f] | None => [] end)).
+  apply good_comps_app; [apply plains_good; exact Hp|].
+  destruct file as [f|]; [apply good_single; apply plain_good; exact Hf | constructor].
+Qed.
+
+(* at the pinned commit findUpwards cut elements off the path as it was spelled: from "/a/b/.."
+   (the directory /a) it went "up" to /a/b and used the configuration of that DESCENDANT;
+   repaired by commit f78e575 *)
+Definition chain_ab : levels :=
+  [([97%N], {| c_regal := RAbsent; c_yaml := YAbsent |}); ([98%N], {| c_regal := RAbsent; c_yaml := YIsFile |})].
+Definition arg_ab_up : str := [47; 97; 47; 98; 47; 46; 46]%N.     (* "/a/b/.." *)
+
+Theorem find_spelled_pinned_refuted :
+  abs_path [SLASH] arg_ab_up = [47; 97]%N /\
+  find_config_pinned (fs_of_chain {| c_regal := RAbsent; c_yaml := YAbsent |} chain_ab None) [SLASH] arg_ab_up
+    = FFound [47; 97; 47; 98; 47; 46; 114; 101; 103; 97; 108; 46; 121; 97; 109; 108]%N /\
+  find_config (fs_of_chain {| c_regal := RAbsent; c_yaml := YAbsent |} chain_ab None) [SLASH] arg_ab_up
+    = FErr ENotFound.
+Proof. repeat split; vm_compute; reflexivity. Qed.
